@@ -122,6 +122,15 @@ func replay(args []string) int {
 	return 0
 }
 
+func isFree(p *evalrt.Program, name string) bool {
+	for _, n := range p.Free {
+		if n == name {
+			return true
+		}
+	}
+	return false
+}
+
 func runProgram(p *evalrt.Program, style evalrt.Style, raw []byte) hx.CaseResult {
 	res := hx.CaseResult{Validated: true}
 	r := evalrt.Renderer{Scope: p.Scope, Style: style}
@@ -196,7 +205,7 @@ func runProgram(p *evalrt.Program, style evalrt.Style, raw []byte) hx.CaseResult
 		// read the whole pool back
 		for _, name := range evalrt.PoolNames {
 			ev, ok := exp.S[name]
-			if !ok {
+			if !ok || isFree(p, name) {
 				continue
 			}
 			got := m.Read(name)
@@ -210,6 +219,17 @@ func runProgram(p *evalrt.Program, style evalrt.Style, raw []byte) hx.CaseResult
 			fail(item(map[string]any{"obs": "nlogs", "expected": exp.NLogs, "got": len(logs)}))
 		} else if exp.NLogs > 0 && evalrt.NormText(logs[len(logs)-1]) != evalrt.NormText(strings.Join(exp.LastLog, "")) {
 			fail(item(map[string]any{"obs": "log", "expected": strings.Join(exp.LastLog, ""), "got": logs[len(logs)-1]}))
+		}
+		if i == len(p.Exp)-1 {
+			for _, pair := range p.Law {
+				if len(pair) == 2 {
+					a, b := m.Read(pair[0]), m.Read(pair[1])
+					if a != b {
+						fail(item(map[string]any{"obs": "law", "law": pair[0] + " = " + pair[1], "expected": "equal",
+							"got": evalrt.ShowGot(a) + " vs " + evalrt.ShowGot(b)}))
+					}
+				}
+			}
 		}
 		if len(res.Mismatch) > 0 {
 			break // later steps would only repeat the difference
